@@ -19,6 +19,8 @@ func Lookup(id string) sim.Property {
 		return C10{}
 	case "C11":
 		return C11{}
+	case "C12":
+		return C12{}
 	case "C08":
 		return C08{}
 	}
